@@ -11,6 +11,7 @@ import (
 	"crypto/x509"
 	"encoding/base64"
 	"fmt"
+	"github.com/saucelabs/forwarder/internal/zzverif/simnet"
 	"github.com/saucelabs/forwarder/internal/zzverif/tcore"
 	"net"
 	"sort"
@@ -407,12 +408,16 @@ var historyTable = []entry{
 var historyRequests = []struct {
 	name, host, port, authority string
 	own                         bool // the client supplies its own Authorization
+	connect                     bool // a CONNECT (only through the upstream proxy)
+	reset                       bool // ... whose connection the upstream proxy resets as soon as it is established
 }{
-	{"origin.test", "origin.test", "80", "origin.test", false},
-	{"origin.test:8080", "origin.test", "8080", "origin.test:8080", false},
-	{"other.test:8080", "other.test", "8080", "other.test:8080", false},
-	{"other.test", "other.test", "80", "other.test", false},
-	{"origin.test+own-authorization", "origin.test", "80", "origin.test", true},
+	{"origin.test", "origin.test", "80", "origin.test", false, false, false},
+	{"origin.test:8080", "origin.test", "8080", "origin.test:8080", false, false, false},
+	{"other.test:8080", "other.test", "8080", "other.test:8080", false, false, false},
+	{"other.test", "other.test", "80", "other.test", false, false, false},
+	{"origin.test+own-authorization", "origin.test", "80", "origin.test", true, false, false},
+	{"CONNECT origin.test:443", "origin.test", "443", "origin.test:443", false, true, false},
+	{"CONNECT origin.test:443 (upstream resets the connection)", "origin.test", "443", "origin.test:443", false, true, true},
 }
 
 func historyScenario(x *explore.X, n int) {
@@ -443,6 +448,50 @@ func historyScenario(x *explore.X, n int) {
 		rq := historyRequests[k]
 		names = append(names, rq.name)
 		ctx := fmt.Sprintf("request %s after %v, upstream proxy %v", rq.name, names[:len(names)-1], viaUp)
+		if rq.connect {
+			if !viaUp {
+				out = append(out, "n/a")
+				continue
+			}
+			cl, _ := w.Client()
+			up := hops["up.test:8080"]
+			if rq.reset {
+				w.Net.Plan["up.test:8080"] = simnet.ResetAfterAccept
+			}
+			cl.Send([]byte("CONNECT " + rq.authority + " HTTP/1.1\r\nHost: " + rq.authority + "\r\n\r\n"))
+			world.Settle(5 * time.Second)
+			w.Net.Plan["up.test:8080"] = simnet.Connect
+			x.Check()
+			if rq.reset {
+				out = append(out, "reset")
+				cl.Close()
+				continue
+			}
+			msgs, conns, problem := up.Next()
+			if problem != "" || len(msgs) != 1 || msgs[0].Method != "CONNECT" || msgs[0].Target != rq.authority {
+				x.Failf("upstream-connect-garbled/after-earlier-requests", "%s: the upstream proxy must receive exactly one CONNECT %s, it holds %d requests (%s): %q", ctx, rq.authority, len(msgs), problem, world.Clip(up.Conns[len(up.Conns)-1].Recv()))
+				return
+			}
+			if pa := msgs[0].Get("Proxy-Authorization"); len(pa) != 1 || pa[0] != "Basic "+tok("h4", "q4") {
+				x.Failf("upstream-credentials-wrong/after-earlier-requests", "%s: CONNECT carries Proxy-Authorization %q", ctx, pa)
+			}
+			hc := up.Conns[conns[0]]
+			hc.Send([]byte("HTTP/1.1 200 OK\r\n\r\n"))
+			before := len(hc.Recv())
+			cl.Send([]byte("opaque-tunnel-payload"))
+			if got := string(hc.Recv()[before:]); got != "opaque-tunnel-payload" {
+				x.Failf("tunnel-payload/after-earlier-requests", "%s: inside the tunnel the upstream proxy (i.e. the origin behind it) received %q", ctx, world.Clip([]byte(got)))
+			}
+			for _, e := range historyTable {
+				if n := bytes.Count(hc.Recv()[before:], []byte(tok(e.user, e.pass))); n > 0 {
+					x.Failf("credential-leak/tunnel/after-earlier-requests", "%s: credentials of entry %s travel inside the tunnel", ctx, e)
+				}
+			}
+			out = append(out, "tunnel")
+			cl.Close()
+			hc.Close()
+			continue
+		}
 		cl, _ := w.Client()
 		extra := ""
 		if rq.own {
@@ -512,7 +561,7 @@ func historyScenario(x *explore.X, n int) {
 
 func TestC06(t *testing.T) {
 	s := explore.NewSuite(t, "C06", "exploration",
-		"credential table = every subset of size <= 3 of 8 entries (exact host:port, *:port, host:*, *:*, other host, entries matching the upstream proxy) (93) x upstream(none, static URL with userinfo, static URL resolved through the table, PAC-selected) x target/kind(6: implicit/explicit port 80, CONNECT, inside MITM, other host) x client fields(12: Proxy-Authorization once/twice/nominated by Connection/mixed case, client Authorization Basic / Bearer / Digest / Negotiate / malformed Basic / lower-case scheme); deviation-bounded (D=2 quick) and full product table x upstream x target with client fields as the only bounded dimension (D=1 quick, unbounded thorough); every byte received by the origin, by the upstream proxy and inside the tunnel is searched for the base64 token of every credential, each occurrence must be where expectCreds allows, and expected credentials must be present; plus (concurrent-lookups, Engine T) the credentials matcher of one proxy asked by 2-3 connections at once about 4 targets (after 0-1 earlier lookups), credentials.go rebuilt with a scheduling point before every statement, every interleaving within 2 (quick) / 3 (thorough) preemptions: every lookup returns its own target's entry; plus (history) ONE proxy (with and without an upstream proxy whose credentials come from the table) and EVERY sequence of 2 (quick) / 4 (thorough) requests out of 5 (same host on two ports, another host on two ports, the client's own Authorization): each request carries the credentials of its own target whatever was requested before")
+		"credential table = every subset of size <= 3 of 8 entries (exact host:port, *:port, host:*, *:*, other host, entries matching the upstream proxy) (93) x upstream(none, static URL with userinfo, static URL resolved through the table, PAC-selected) x target/kind(6: implicit/explicit port 80, CONNECT, inside MITM, other host) x client fields(12: Proxy-Authorization once/twice/nominated by Connection/mixed case, client Authorization Basic / Bearer / Digest / Negotiate / malformed Basic / lower-case scheme); deviation-bounded (D=2 quick) and full product table x upstream x target with client fields as the only bounded dimension (D=1 quick, unbounded thorough); every byte received by the origin, by the upstream proxy and inside the tunnel is searched for the base64 token of every credential, each occurrence must be where expectCreds allows, and expected credentials must be present; plus (concurrent-lookups, Engine T) the credentials matcher of one proxy asked by 2-3 connections at once about 4 targets (after 0-1 earlier lookups), credentials.go rebuilt with a scheduling point before every statement, every interleaving within 2 (quick) / 3 (thorough) preemptions: every lookup returns its own target's entry; plus (history) ONE proxy (with and without an upstream proxy whose credentials come from the table) and EVERY sequence of 2 (quick) / 4 (thorough) requests out of 7 (same host on two ports, another host on two ports, the client's own Authorization, a CONNECT through the upstream proxy, a CONNECT whose upstream connection is reset as soon as it is established): each request carries the credentials of its own target whatever was requested before")
 	s.Assume = []string{"secrets are searched in their Basic (base64) form and the harness terminates TLS at the scripted origin", "simnet owns every connection"}
 	s.Add(explore.Scenario{Name: "bounded", Remote: true, Tiers: []string{"quick"}, MaxDev: map[string]int{"quick": 2},
 		Run: func(x *explore.X) { world.Run(t, x, func() { scenario(x, false) }) }})
